@@ -240,6 +240,9 @@ func (l *Loaded) callSitesOf(fn *ssa.Function) []ssa.CallInstruction {
 // argFor: the argument of call corresponding to parameter index i of the callee (ssa params include the receiver).
 func argFor(call ssa.CallInstruction, callee *ssa.Function, i int) ssa.Value {
 	cc := call.Common()
+	if i < 0 {
+		return nil
+	}
 	if cc.IsInvoke() {
 		// callee params: recv, a0, a1... ; invoke args exclude receiver
 		if i == 0 {
